@@ -17,7 +17,8 @@ for cfg in extract.CONFIGS:
     d = {}
     for fn in facts["abyssiniandb"]["functions"]:
         if fn["kind"] in ("Fn", "AssocFn"):
-            d[fn["id"]] = [fn.get("impl_self_adt"), fn.get("impl_trait"), fn.get("inputs", []), fn.get("output", "")]
+            names = [fn["locals"][i].get("name") for i in range(1, fn["arg_count"] + 1)] if len(fn["locals"]) > fn["arg_count"] else []
+            d[fn["id"]] = [fn.get("impl_self_adt"), fn.get("impl_trait"), fn.get("inputs", []), fn.get("output", ""), names]
     per[cfg] = d
 out = os.path.join(HERE, "rules", "golden", "baseline_functions.json")
 json.dump({"source": "git worktree of /repo HEAD", "configs": per}, open(out, "w"), indent=0, sort_keys=True)
